@@ -137,6 +137,18 @@ def present(a, kind):
     raise ValueError(kind)
 
 
+def size_edges(lo=1, hi=10001):
+    """lengths at which blocked processing, fixed-size buffers and thresholds change
+    hands: powers of two and round decimal numbers, each with its two neighbours"""
+    s = set()
+    for k in range(1, 21):
+        s.update((2 ** k - 1, 2 ** k, 2 ** k + 1))
+    for r in (10, 100, 146, 250, 500, 1000, 2000, 2500, 5000, 10000, 20000, 50000,
+              65535, 100000):
+        s.update((r - 1, r, r + 1))
+    return sorted(v for v in s if lo <= v <= hi)
+
+
 def scalar_forms(v, k=0):
     """the same number as another scalar type a caller may hold (numpy scalars come out
     of every array reduction; 0-d arrays out of np.asarray / xarray)"""
@@ -290,13 +302,21 @@ class Ctx:
                                 "result": jsonable(truncate(jsonable(r))),
                                 "base": jsonable(truncate(jsonable(base)))})
 
-    def reuse(self, label, fn, arrays, base, case, rtol=1e-14, atol=0.0):
+    def reuse(self, label, fn, arrays, base, case, rtol=1e-14, atol=0.0, mutate=None):
         """Three calls with the *same* argument objects, as a caller's loop does: the
         arguments are still what they were; the first result, kept by the caller, is
         not overwritten by the second call; and after the caller has edited the
         results it was given, the third call still returns the first answer."""
         from hyverif.monitors.purity import scramble
         import copy as _copy
+        if mutate is None:
+            def mutate(a, i):
+                # new content made of the array's own values (so it stays inside
+                # whatever domain the function has): rows shifted by a different amount
+                # per argument, and one value overwritten by another one
+                a[...] = np.roll(a, i + 1, axis=0)
+                if a.size >= 2:
+                    a.flat[0] = a.flat[a.size // 2 or 1]
         args = [np.ascontiguousarray(np.array(a, copy=True)) if isinstance(a, np.ndarray)
                 else _copy.deepcopy(a) for a in arrays]
         orig = [_copy.deepcopy(a) for a in args]
@@ -326,6 +346,29 @@ class Ctx:
                    lambda: {"first": jsonable(truncate(jsonable(keep))),
                             "third": jsonable(truncate(jsonable(r3))),
                             "fresh": jsonable(truncate(jsonable(base)))})
+        # the caller refills its own arrays in place (a loop over sites re-using one
+        # buffer) and calls again: the answer is the one for the new content, i.e. what
+        # fresh copies of the same arrays give
+        farr = [i for i, a in enumerate(args)
+                if isinstance(a, np.ndarray) and a.dtype.kind == "f" and a.size]
+        if not farr or not mutate:
+            return
+        try:
+            for i in farr:
+                mutate(args[i], i)
+            cur = [np.array(a, copy=True) if isinstance(a, np.ndarray)
+                   else _copy.deepcopy(a) for a in args]
+            r4 = fn(*args)
+            rf = fn(*cur)
+        except Exception:
+            self.extra[f"reuse-refill-refused:{label}"] += 1
+            return
+        self.tag("reuse-refilled:" + label)
+        self.api(label, 2)
+        self.check("reuse.refilled-arguments", same_result(r4, rf, rtol, atol),
+                   f"{label}|stale-answer-after-arguments-were-refilled-in-place", case,
+                   lambda: {"same_objects": jsonable(truncate(jsonable(r4))),
+                            "fresh_copies": jsonable(truncate(jsonable(rf)))})
 
     def shapes(self, label, fn, x, base, case, rtol=1e-12, atol=0.0):
         """An element-wise function gives every element the same answer whatever the
